@@ -1,4 +1,5 @@
 import Driver.Store
+import Siot.Model.Rebroadcast
 namespace Driver.C01
 open Siot Siot.Store Driver Driver.StoreD
 
@@ -90,5 +91,47 @@ def handleC05 (args : List String) (impl : String) : Verdict :=
       note := if ok then "" else if !refused then "class=bad-write-accepted" else if !answered then "class=later-request-not-served"
         else if !noTrace then "class=refused-write-left-trace" else "class=hash-mismatch" }
   | none => bad "C05 parse"
+
+/-- C05 moves and mirrors through the client library (`client.MoveNode` / `client.MirrorNode`) on the instance of the
+    rebroadcast cases (root "R"): a move or mirror below the node itself or below one of its descendants must be answered
+    with an error, rebroadcast nothing and leave every edge of the node as it was; a legal one succeeds and leaves the
+    node live under the new parent (and, for a move, deleted under the old one). -/
+def handleC05Move (c : String) (impl : String) : Verdict :=
+  let st0 : St := { root := strBytes "R", edges := [⟨rootS, strBytes "R", strBytes "device", 0⟩] }
+  match c.splitOn "|", impl.splitOn " ## " with
+  | [setup, fin], [resS, subsS, edgesS] =>
+    match parseOps setup with
+    | some sops =>
+      let (st1, rs1) := runOps st0 sops
+      let f := fin.splitOn ":"
+      match f.headD "", (f.getD 1 "" |> ofHex), (f.getD 2 "" |> ofHex), (if f.length > 3 then ofHex (f.getD 3 "") else some []) with
+      | kind, some id, some p2, some p3 =>
+        let (old, new) := if kind == "mv" then (p2, p3) else ([], p2)
+        let typ := ((st1.edges.find? (fun e => e.down == id)).map (·.typ)).getD []
+        let exists_ := st1.edges.any (fun e => e.down == id)
+        let now : Int := 2000000000000000000
+        let creation : Op := .ep id new [{ type := tombstoneT, time := now }, { type := nodeTypeT, text := typ, time := now }]
+        let (st2, r2) := runOps st1 [creation]
+        let accepted := r2 == ["ok"] && exists_ && !(kind == "mv" && new == old)
+        let st3 := if accepted && kind == "mv" then
+            (runOps st2 [.ep id old [{ type := tombstoneT, value := 4607182418800017408, time := now + 1 }]]).1
+          else if accepted then st2 else st1
+        let edgesOf := fun (st : St) => sortS ((st.edges.filter (fun e => e.down == id)).map (fun e =>
+          toHex e.up ++ "=" ++ toString (edgeTomb st e)))
+        let m := ",".intercalate (rs1 ++ [if accepted then "ok" else "err"]) ++ " ## " ++
+          (if accepted then subsS else "-") ++ " ## " ++ joinOr (edgesOf st3) ","
+        -- specification, from the graph alone: below itself or below a descendant (through edges of any state)
+        let desc : List Bytes := (List.range (st1.edges.length + 1)).foldl (fun acc _ =>
+          (acc ++ (st1.edges.filter (fun e => acc.contains e.up)).map (·.down)).eraseDups) [id]
+        let mustRefuse := desc.contains new
+        let implOk := (resS.splitOn ",").getLast? == some "ok"
+        let ok := if mustRefuse then !implOk && subsS == "-" && edgesS == joinOr (edgesOf st1) ","
+          else if accepted then implOk && edgesS == joinOr (edgesOf st3) "," else true
+        { model := m, spec := some ok,
+          note := if ok then "" else if mustRefuse && implOk then "class=bad-write-accepted"
+            else if mustRefuse then "class=refused-write-left-trace" else "class=legal-move-not-carried-out" }
+      | _, _, _, _ => bad "C05 move op"
+    | none => bad "C05 move setup"
+  | _, _ => bad "C05 move parse"
 
 end Driver.C01
